@@ -27,7 +27,14 @@ def scenarios(ctx):
         calls = rng.choice([100, 140, 180]) if quick else rng.choice([100, 200, 400])
         scn.append(f"mux id={i + 1} net={net} enc={enc} workers={rng.choice([1, 2, 4, 16])} calls={calls} "
                    f"threads={rng.choice([4, 12, 32])} close={close} seed={rng.randrange(1, 10 ** 6)} "
-                   f"maxbody={rng.choice([3000, 70000, 300000])}")
+                   f"maxbody={rng.choice([3000, 70000, 300000])} race=10")
+    # cancellation / deadline racing with the arrival of the response, few threads so that the recycled Responses
+    # (PutResponse after every call) are taken again at once: a stale result in a recycled Response shows up as
+    # another call's answer
+    for j in range(4 if quick else 30):
+        scn.append(f"mux id={n + j + 1} net={rng.choice(['tcp', 'unix'])} enc={rng.choice([0, 1])} workers={rng.choice([2, 4])} "
+                   f"calls={400 if quick else 1500} threads={rng.choice([1, 2, 3])} close=none seed={rng.randrange(1, 10 ** 6)} "
+                   f"maxbody=3000 race={rng.choice([50, 70])}")
     return scn
 
 
@@ -46,8 +53,10 @@ def gen_pc(rng, hostile):
             ops.append(f"f:{rng.randrange(ncalls)}")
         elif r < 0.66:
             ops.append(f"f:u{rng.randrange(50)}")
-        elif r < 0.78:
+        elif r < 0.72:
             ops.append(f"c:{rng.randrange(ncalls)}")
+        elif r < 0.78:
+            ops.append(f"w:{rng.randrange(ncalls)}")   # doWait with a cancelled ctx + PutResponse (Response recycled)
         elif r < 0.85:
             ops.append(f"x:{rng.randrange(2)}")
         elif r < 0.94:
@@ -78,7 +87,7 @@ def gen_pc(rng, hostile):
                 closed, up = True, False
             elif f[0] == "f" and f[1][0] != "u" and int(f[1]) not in sent:
                 continue
-            elif f[0] == "c":
+            elif f[0] in ("c", "w"):
                 live.discard(int(f[1]))
             fixed.append(op)
         ops = fixed
@@ -105,7 +114,10 @@ def gen_ops(ctx):
                   "pc u s:0:n m c:0 f:0 x:1",            # response after cancel is dropped
                   "pc u s:0:n s:1:n s:0:p m s:0:n s:1:f s:0:p k x:1",  # close drains everything
                   "pc u s:0:n s:1:n m s:0:n s:1:n s:0:p x:1 u m",     # disconnect: sent / failIfNoConnection / expired go, rest requeued
-                  "pc u s:0:n m h f:0 u s:0:n m h c:1"]:   # graceful shutdown closes when the last call is gone
+                  "pc u s:0:n m h f:0 u s:0:n m h c:1",   # graceful shutdown closes when the last call is gone
+                  "pc u s:0:n m f:0 w:0 s:0:n m f:1 w:1 s:0:n s:0:n m x:1 w:2 w:3 s:0:n s:0:n"] + \
+                 [("pc u " + "s:0:n m f:%d w:%d " * 12 % tuple(k for i in range(12) for k in (i, i))).strip()]:  # cancel after delivery, recycle, reuse
+    # (the select of doWait picks at random when the result is already there: repeated so that both cases run)
         ops.append((fixed, "pc-fixed", None))
     # --- observed histories of the concurrent runs -> extracted monitor
     for sid, ev in ctx.mux_logs.items():
@@ -140,7 +152,14 @@ def pc_oracle(op, out):
         if d.startswith("harness-panic") or d.startswith("bad-op"):
             bad.append(("harness", d))
             break
+        if d == "not-allowed":
+            continue
+        if d == "STALE-RESULT-IN-PENDING-CALL":
+            bad.append(("stale-result-in-recycled-response", f"after op {i - 1}: a pending call holds a result in its (recycled) Response before anything was delivered to it"))
+            break
         kv = parse_dump(d)
+        if kv.get("dirty", "0") != "0":
+            bad.append(("recycled-response-dirty", f"op {i} ({o}): Do returned and left a result in the channel of the Response it recycles"))
         calls = [] if kv["calls"] == "-" else kv["calls"].split(",")
         if not tainted and int(kv["inf"]) != sum(1 for c in calls if c.endswith("s")):
             bad.append(("inflight-count", f"after op {i} ({o}): inFlight={kv['inf']} but calls={kv['calls']}"))
@@ -283,7 +302,7 @@ def run(ctx):
                      "fewer than 2^62 calls per client (query IDs are then pairwise distinct, theorem C38_alloc_distinct)",
                      "Go code is modelled, not verified: agreement is established on the operations listed under op_kinds"],
         rule="alloc: ClientImpl.GetRequest from chosen counter values (wrap-around, skipped zero); pc*: random op lists over the real clientConn "
-             "(setupCallLocked, moveRequestsToSendLocked, finishCall, cancelCallImpl, continueRunningImpl, close, setClientConn, shutdown), state "
+             "(setupCallLocked, moveRequestsToSendLocked, finishCall, cancelCallImpl, doWait+PutResponse, continueRunningImpl, close, setClientConn, shutdown), state "
              "dumped after every op and compared with the extracted model; mon: one observed history per concurrent scenario (real Server+Client, "
              "TCP/Unix, with/without encryption, -race) fed to the extracted monitor; distinct = distinct op lines")
     ctx.coverage["concurrent_runs"] = mux_note
